@@ -35,6 +35,7 @@ type Object struct {
 	// opaque / sync state
 	Aux map[string]Value
 	Tag string
+	Local bool // a non-escaping local variable (ssa.Alloc with Heap=false): never shared between threads
 	// pending stores at symbolic indexes (newest last); see mem.go
 	SymSt []SymStore
 }
@@ -186,6 +187,8 @@ type State struct {
 	YieldFrom int
 	TimerFired int
 	VisibleAtomics bool
+	WatchAll bool // every load/store of a heap object is a scheduling point (nd.WatchAll)
+	Watched []int // objects whose plain loads and stores are scheduling points (nd.Watch); shared, append-only
 	ConcreteClock bool
 	ClockTick int64
 	narrowCache map[int]int
@@ -222,6 +225,7 @@ func (st *State) fork() *State {
 		id: stateSeq, nextObj: st.nextObj, Cur: st.Cur,
 		Steps: st.Steps, SymBr: st.SymBr, PanicLbl: st.PanicLbl, Depth: st.Depth, Preempts: st.Preempts,
 		LastNow: st.LastNow, Epoch: st.Epoch, NoSched: st.NoSched, NeedSched: st.NeedSched, PoolReuse: st.PoolReuse, YieldFrom: st.YieldFrom, TimerFired: st.TimerFired, VisibleAtomics: st.VisibleAtomics, ConcreteClock: st.ConcreteClock, ClockTick: st.ClockTick,
+		Watched: st.Watched[:len(st.Watched):len(st.Watched)], WatchAll: st.WatchAll,
 	}
 	// the parent also needs a new id so that neither mutates shared objects in place
 	stateSeq++
